@@ -27,6 +27,7 @@ def all_handler_runs(ctx, fails):
                 # archives that are older than the epoch as files, with a member later than the epoch followed by members that are not
                 t.add_file("d/mixed.zip", samples.mixed_zip(), mtime_ns=(samples.EPOCH - 1000) * 10 ** 9)
                 t.add_file("d/mixed.jar", samples.mixed_zip(), mtime_ns=(samples.EPOCH - 1000) * 10 ** 9)
+                t.add_file("d/invalid-date.zip", samples.invalid_date_zip(), mtime_ns=(samples.EPOCH - 1000) * 10 ** 9)
                 if "," in sel:
                     # archives with a member the real run refuses to copy (encrypted; a compression method it has no codec for): --check has to refuse them too
                     for kind in ("encrypted", "bzip2", "lzma"):
